@@ -67,6 +67,8 @@ def write_inputs(fs, root):
     ref2.write_symfs(fs, posixpath.join(root, 'plt2d'))
     chk.write_symfs(fs, posixpath.join(root, 'chk00005'))
     chk.write_symfs(fs, posixpath.join(root, 'restart7'))
+    # a renamed checkpoint (no 'chk' in its name) kept in a directory whose name has 'chk' in it
+    chk.write_symfs(fs, posixpath.join(posixpath.dirname(root), 'chk_store', 'restart9'))
     # a checkpoint whose reference plotfile (for the species names) sits exactly where the default output would go
     chk.write_symfs(fs, posixpath.join(root, 'chk00077'))
     Ref('t', 3, ['temp', 'Y(H2)', 'density', 'Y(O2)'], (1, 1, 1), [[((0, 0, 0), (0, 0, 0))]]).write_symfs(fs, posixpath.join(root, 'plt00077'))
@@ -165,6 +167,9 @@ def invocations(form):
     inv('chk2plt-default', [pc], lambda m: m['amr_kitchen.chk2plt.chk2plt'].chk2plt(sp(pc), species=['H2', 'O2'], gradp=False), [posixpath.join(root, 'plt00005')])
     pr = posixpath.join(root, 'restart7')
     inv('chk2plt-default-noprefix', [pr], lambda m: m['amr_kitchen.chk2plt.chk2plt'].chk2plt(sp(pr), species=['H2', 'O2'], gradp=False), [pr + '_plt'])
+    pz = posixpath.join(posixpath.dirname(root), 'chk_store', 'restart9')
+    spz = (sp(pz) if sp(p3).startswith('/') else posixpath.relpath(pz, form['cwd']) + ('/' if sp(p3).endswith('/') else ''))
+    inv('chk2plt-default-chk-in-parent', [pz], lambda m: m['amr_kitchen.chk2plt.chk2plt'].chk2plt(spz, species=['H2', 'O2'], gradp=False), [pz + '_plt'])
     p77, r77 = posixpath.join(root, 'chk00077'), posixpath.join(root, 'plt00077')
     inv('chk2plt-default-onto-reference', [p77, r77], lambda m: m['amr_kitchen.chk2plt.chk2plt'].chk2plt(sp(p77), target_plotfile=sp(r77), gradp=False), [],
         fail='the default output is the reference plotfile itself')
@@ -425,12 +430,13 @@ def make_replay_(v):
     form = FORMS[v['form']]
     root = form['root']
     write_inputs(fs, root)
-    plotfile.write_real_tree(fs, root, os.path.join(d, 'sandbox') + root, val)
+    top = posixpath.dirname(root)           # inputs also live beside the run directory (chk_store/)
+    plotfile.write_real_tree(fs, top, os.path.join(d, 'sandbox') + top, val)
     case = {'property': 'C13', 'handler': 'c13', 'signature': v['signature'], 'what': v['what'], 'form': v['form'], 'index': v['index'], 'fault': v['fault']}
     if v.get('trunc_size') is not None:
         case['trunc_size'] = v['trunc_size']
         # the same inputs once more, left intact: the replay compares the two runs
-        plotfile.write_real_tree(fs, root, os.path.join(d, 'sandbox_intact') + root, val)
+        plotfile.write_real_tree(fs, top, os.path.join(d, 'sandbox_intact') + top, val)
     with open(os.path.join(d, 'case.json'), 'w') as f:
         json.dump(case, f, indent=1)
     with open(os.path.join(d, 'python'), 'w') as f:
